@@ -264,6 +264,18 @@ mutual
     | t :: ts => wfList t && wfLists ts
 end
 
+mutual
+  /-- programs without `when` -/
+  def whenFreeList : List Stmt → Bool
+    | [] => true
+    | s :: r => whenFreeStmt s && whenFreeList r
+  def whenFreeStmt : Stmt → Bool
+    | .ifS t f => whenFreeList t && whenFreeList f
+    | .whileS b => whenFreeList b
+    | .whenS _ _ _ _ => false
+    | _ => true
+end
+
 def cbList : Option (Lbl × Lbl) → List Lbl
   | none => []
   | some (b, e) => [b, e]
